@@ -373,6 +373,27 @@ def step(run, op):
                     ctx.fail(op, dict(sig, what='from_df_descriptors'), f'descriptor {name} after the DataFrame round '
                              f'trip: {list(src)} != {want}', hist())
                     return False
+            # a descriptor that marks only some rows (one label, the other rows missing: None or NaN) is an observation
+            # descriptor like any other: each row keeps its own entry through the round trip
+            if len(sh.ou) >= 2:
+                kind = gen.pick(rng, ['none', 'nan'])
+                k_marked = int(rng.integers(1, len(sh.ou)))
+                marked = set(int(i) for i in rng.choice(len(sh.ou), size=k_marked, replace=False))
+                lab, miss = ('blink', None) if kind == 'none' else (0.5, float('nan'))
+                c2 = ds.copy()
+                c2.obs_descriptors['mark'] = [lab if i in marked else miss for i in range(len(sh.ou))]
+                b2 = Dataset.from_df(c2.to_df(channel_descriptor='cuid'), channels=list(sh.cu), channel_descriptor='cuid')
+                ctx.count('df_roundtrip_partial_marks')
+                got = b2.obs_descriptors.get('mark')
+                got = None if got is None else [None if (v is None or v != v) else v for v in got]
+                want = [lab if i in marked else None for i in range(len(sh.ou))]
+                if 'mark' in ds.obs_descriptors:
+                    raise AssertionError('harness: the copy shares its descriptor dict with the dataset')
+                if got != want:
+                    ctx.fail(op, dict(sig, what='from_df_partial_marks'), f'descriptor marking rows {sorted(marked)} '
+                             f'({kind} elsewhere) came back as {got} (dataset-level: '
+                             f'{b2.descriptors.get("mark")!r})', hist())
+                    return False
         elif op == 'average_by':
             by = gen.pick(rng, ['cond', 'run'])
             sig['arg'] = by
